@@ -218,6 +218,9 @@ class ndarray:  # noqa: F811
 
     def __bool__(self):
         if self.size != 1:
+            if core.CONCRETE[0] and self.kind == "b":
+                # conformance mode only: numpy.testing.assert_equal(obj, list) evaluates `list == obj` in a boolean context
+                return builtins_all_(bool(c) for c in self.data)
             raise ValueError("The truth value of an array with more than one element is ambiguous.")
         return decide(r_to_bool(self.data[0]))
 
@@ -441,6 +444,8 @@ class ndarray:  # noqa: F811
         return ndarray.new(cells, shape, self._dt)
 
     def __setitem__(self, key, val):
+        if type(key).__module__ == "numpy" and not hasattr(key, "__len__"):
+            key = raw(key)      # real numpy scalars (conformance mode)
         # boolean scalar / 0-d boolean mask: threshold[cond] = v  on 0-d arrays
         if isinstance(key, (bool, SV)) or (isinstance(key, ndarray) and key.ndim == 0 and key.kind == "b"):
             c = raw(key.data[0] if isinstance(key, ndarray) else key)
@@ -1344,6 +1349,8 @@ def nextafter(x, d):
 # ---- reductions ---------------------------------------------------------------------------------------
 import builtins as _b
 
+builtins_all_ = _b.all
+
 
 
 def _reduce(a, axis, keepdims, fn, empty_val=None, out_kind=None):
@@ -1507,10 +1514,45 @@ def cumsum(a, axis=None):
     return ndarray.new(cells, (len(cells),))
 
 
-def diff(a, n=1, axis=-1):
+def _drop_nan(g):
+    return [c for c in g if not (is_special(c) and c != c)]
+
+
+def nanmean(a, axis=None, keepdims=False):
+    def f(g):
+        g = [r_to_float(ite(c, 1, 0)) if sort_of(c) == "b" else c for c in _drop_nan(g)]
+        return r_div(_sum_cells(g), len(g)) if g else nan
+
+    return _reduce(a, axis, keepdims, f, nan)
+
+
+def nanvar(a, axis=None, ddof=0):
+    def f(g):
+        g = _drop_nan(g)
+        if not g:
+            return nan
+        m = r_div(_sum_cells(g), len(g))
+        return r_div(_sum_cells([r_mul(r_sub(c, m), r_sub(c, m)) for c in g]), len(g) - ddof)
+
+    return _reduce(a, axis, False, f, nan)
+
+
+def nanstd(a, axis=None, ddof=0):
+    return sqrt(nanvar(a, axis, ddof))
+
+
+def nanmedian(a, axis=None):
+    return _quantile(a, Fraction(1, 2), axis, True)
+
+
+def diff(a, n=1, axis=-1, prepend=None, append=None):
     a = asarray(a)
     if a.ndim != 1 or n != 1:
         raise Unsupported("diff of nd array")
+    if prepend is not None:
+        a = concatenate([asarray(prepend).reshape(-1), a])
+    if append is not None:
+        a = concatenate([a, asarray(append).reshape(-1)])
     d = a.data
     return ndarray.new([r_sub(d[i + 1], d[i]) for i in range(len(d) - 1)], (max(len(d) - 1, 0),))
 
